@@ -100,6 +100,7 @@ fn main() {
 fn run(args: &[String]) -> i32 {
     quiet_panics();
     if let Some(hx) = arg_val(args, "--replay-hex") { return replay(&unhex(&hx)); }
+    if arg_flag(args, "--tokenizer") { return run_tokenizer(args); }
     let seed = arg_u64(args, "--seed", 1);
     let n = arg_u64(args, "--n", 600) as usize;
     let max_tokens = arg_u64(args, "--max-tokens", 90) as usize;
@@ -185,6 +186,85 @@ fn run(args: &[String]) -> i32 {
     println!("{{\"evaluations\":{},\"distinct_nontrivial\":{},\"shards\":{},\"distribution\":{},\"samples\":[{}]}}",
         shards.total, distinct.len(), shards.shard_count, stats.json(), samples.join(","));
     0
+}
+
+/// K/S cases for the tokenizer wrapper (Parser/TokenizerCheck.v): the calls the parser made on the
+/// real Tokenizer, the answers of the three real logos lexers at every token boundary, the real tokens
+fn run_tokenizer(args: &[String]) -> i32 {
+    quiet_panics();
+    let seed = arg_u64(args, "--seed", 1);
+    let n = arg_u64(args, "--n", 600) as usize;
+    let max_tokens = arg_u64(args, "--max-tokens", 90) as usize;
+    let out = arg_val(args, "--out").expect("--out");
+    let prelude = "From Coq Require Import List NArith ZArith Bool.\nFrom YV Require Import Parser.TokenizerCheck.\nImport ListNotations.\nLocal Open Scope N_scope.\n";
+    let mut shards = Shards::new(Path::new(&out), prelude, 100);
+    let mut rng = Rng::new(seed ^ 0x70C3);
+    let mut stats = Stats::default();
+    let mut distinct = std::collections::HashSet::new();
+    let mut samples = vec![];
+    let mut corpus = corpus();
+    corpus.extend(tokenizer_corpus());
+    let mut attempts = 0usize; let mut lex_calls = 0u64;
+    while shards.total < n && attempts < n * 20 {
+        attempts += 1;
+        let (stream, src) = if !corpus.is_empty() { ("corpus".to_string(), corpus.remove(0)) }
+            else if rng.chance(1, 2) { ("hexy".to_string(), gen_hexy(&mut rng)) } else { gen_source(&mut rng) };
+        let _ = yara_x_parser::verif_take_ops();
+        let raw = match catch(AssertUnwindSafe(|| Parser::new(&src).collect::<Vec<Event>>())) { Ok(v) => v, Err(_) => { stats.inc("parser_panicked"); continue; } };
+        let ops = yara_x_parser::verif_take_ops();
+        let toks: Vec<(u16, usize, usize)> = raw.iter().filter_map(|e| if let Event::Token { kind, span } = e { Some((*kind as u16, span.start(), span.end())) } else { None }).collect();
+        if toks.len() > max_tokens { stats.inc("skipped_too_long"); continue; }
+        // the real lexers at every token boundary, in every mode
+        let mut bounds: Vec<usize> = vec![0]; for t in &toks { bounds.push(t.1); bounds.push(t.2); } bounds.push(src.len());
+        bounds.sort(); bounds.dedup(); bounds.retain(|b| *b <= src.len());
+        let mut table = vec![];
+        for b in &bounds { for m in 0u8..3 {
+            lex_calls += 1;
+            let a = yara_x_parser::verif_lex(m, &src, *b);
+            table.push(format!("({}, {}, {})", m, b, match a {
+                None => "None".to_string(),
+                Some((id, s, e)) => format!("Some ({}, {}, {})", match id { Some(i) => format!("Some {}", i), None => "None".into() }, s, e),
+            }));
+        } }
+        stats.inc(&format!("stream_{}", stream));
+        if ops.iter().any(|o| *o == 1) { stats.inc("enters_hex_pattern_mode"); }
+        if ops.iter().any(|o| *o == 2) { stats.inc("enters_hex_jump_mode"); }
+        if toks.iter().any(|t| t.0 == SyntaxKind::INVALID_UTF8 as u16) { stats.inc("has_invalid_utf8_token"); }
+        if toks.iter().any(|t| t.0 == SyntaxKind::UNKNOWN as u16) { stats.inc("has_unknown_token"); }
+        if toks.iter().any(|t| t.0 == SyntaxKind::UNKNOWN as u16 && t.2 - t.1 > 1) { stats.inc("has_long_unknown_token"); }
+        if toks.iter().any(|t| t.0 == SyntaxKind::HEX_BYTE as u16) { stats.inc("has_hex_byte"); }
+        if toks.len() >= 5 { distinct.insert(src.clone()); }
+        let case = format!("mkCase {} {} [{}] {}", coq_list(&src, |b| b.to_string()), coq_list(&ops, |o| o.to_string()), table.join("; "),
+            coq_list(&toks, |(k, a, b)| format!("({}, {}, {})", k, a, b)));
+        let gap = { let mut prev = 0usize; let mut g = None; for t in &toks { if t.1 != prev { g = Some((prev, t.1)); break; } prev = t.2; } if g.is_none() && prev != src.len() { g = Some((prev, src.len())); } g };
+        let replay = format!("{{\"index\":{},\"check\":\"tokenizer\",\"stream\":{},\"source_hex\":\"{}\",\"source_lossy\":{},\"tokens\":{},\"ops\":{},\"gap\":{}}}",
+            shards.total, json_str(&stream), hex(&src), json_str(&String::from_utf8_lossy(&src)), toks.len(), json_str(&format!("{:?}", ops)),
+            match gap { Some((a, b)) => format!("\"{}..{}\"", a, b), None => "null".into() });
+        if samples.len() < 3 && ops.iter().any(|o| *o == 2) { samples.push(replay.clone()); }
+        shards.push(case, replay);
+    }
+    shards.flush();
+    println!("{{\"evaluations\":{},\"distinct_nontrivial\":{},\"shards\":{},\"lexer_calls_checked\":{},\"distribution\":{},\"samples\":[{}]}}",
+        shards.total, distinct.len(), shards.shard_count, lex_calls, stats.json(), samples.join(","));
+    0
+}
+
+fn tokenizer_corpus() -> Vec<Vec<u8>> {
+    let v: Vec<&[u8]> = vec![
+        b"rule a {strings: $a = { 01 [2-4] 02 } condition: $a}",
+        b"rule a {strings: $a = { zz } condition: $a}",                       // hex mode entered, left at once
+        b"rule a {strings: $a = { 01 [ x ] 02 } condition: $a}",              // jump mode left on an error
+        b"rule a {strings: $a = { 01 [1-",                                     // input ends in jump mode
+        b"rule a {strings: $a = { AB",                                         // input ends in hex pattern mode
+        b"rule a {strings: $a = { 01 \xe2\x80 02 } condition: $a}",
+        b"rule a {strings: $a = { 01 [\xff] 02 } condition: $a}",
+        b"rule a {strings: $a = {{ 01 }} $b = { ( 01 | [1] ) } condition: $a}",
+        "rule a {condition: \u{3000}x\u{1680}y \u{85} abc\u{e9}def\u{2028}ghi}".as_bytes(),   // whitespace the lexer does not know
+        "\u{201c}abc def\u{201d} \u{e9}\u{e9}\u{e9}".as_bytes(),
+        b"abc\xe2\x80\xe2\x81\x9f\xe2\x80\xaf\xff\xfe\xc3",
+        b"{ 01 } [ 1 ] 0x10 1KB ?? ~AB",
+    ];
+    v.into_iter().map(|s| s.to_vec()).collect()
 }
 
 /// replay of one source: what the implementation returns, and the property on it
